@@ -23,6 +23,7 @@ const (
 type chanInfo struct {
 	obj    Obj
 	closed bool
+	keep   interface{} // the channel itself: keeps it alive so that its address cannot be reused within the run
 }
 
 type selCase struct {
@@ -42,10 +43,10 @@ func chanPtr[T any](ch chan T) uintptr    { return uintptr(*(*unsafe.Pointer)(un
 func rchanPtr[T any](ch <-chan T) uintptr { return uintptr(*(*unsafe.Pointer)(unsafe.Pointer(&ch))) }
 func schanPtr[T any](ch chan<- T) uintptr { return uintptr(*(*unsafe.Pointer)(unsafe.Pointer(&ch))) }
 
-func (s *Sched) chanInfo(p uintptr, label string) *chanInfo {
+func (s *Sched) chanInfo(p uintptr, label string, ch interface{}) *chanInfo {
 	ci := s.chans[p]
 	if ci == nil {
-		ci = &chanInfo{}
+		ci = &chanInfo{keep: ch}
 		ci.obj.Label = label
 		s.initObj(&ci.obj, "chan")
 		s.chans[p] = ci
@@ -63,7 +64,7 @@ func MakeChan[T any](n int, label string) chan T {
 		n = s.opt.ChanCap
 	}
 	ch := make(chan T, n)
-	s.chanInfo(chanPtr(ch), label)
+	s.chanInfo(chanPtr(ch), label, ch)
 	return ch
 }
 
@@ -90,7 +91,7 @@ func recvCase[T any](s *Sched, ch <-chan T) selCase {
 		return selCase{isNil: true}
 	}
 	p := rchanPtr(ch)
-	ci := s.chanInfo(p, "chan")
+	ci := s.chanInfo(p, "chan", ch)
 	c := selCase{p: p, info: ci, cap0: cap(ch) == 0}
 	c.ready = func() bool { return len(ch) > 0 || isClosedRecv(ch, ci) }
 	return c
@@ -101,7 +102,7 @@ func sendCase[T any](s *Sched, ch chan<- T, v T, keep bool) selCase {
 		return selCase{isNil: true, send: true}
 	}
 	p := schanPtr(ch)
-	ci := s.chanInfo(p, "chan")
+	ci := s.chanInfo(p, "chan", ch)
 	c := selCase{p: p, send: true, info: ci, cap0: cap(ch) == 0}
 	if c.cap0 || keep {
 		c.val = v
@@ -261,7 +262,7 @@ func Close[T any](ch chan T) {
 	if ch == nil {
 		panic("close of nil channel")
 	}
-	ci := s.chanInfo(chanPtr(ch), "chan")
+	ci := s.chanInfo(chanPtr(ch), "chan", ch)
 	s.point(&Op{Kind: "chan close", Obj: &ci.obj})
 	ci.closed = true
 	s.event(evClose, &ci.obj, true)
@@ -278,7 +279,7 @@ func CloseSend[T any](ch chan<- T) {
 	case modeAbort:
 		return
 	}
-	ci := s.chanInfo(schanPtr(ch), "chan")
+	ci := s.chanInfo(schanPtr(ch), "chan", ch)
 	s.point(&Op{Kind: "chan close", Obj: &ci.obj})
 	ci.closed = true
 	s.event(evClose, &ci.obj, true)
@@ -292,7 +293,7 @@ func NoteCancel(done <-chan struct{}) {
 	if mode != modeSched || done == nil {
 		return
 	}
-	ci := s.chanInfo(rchanPtr(done), "ctx.Done")
+	ci := s.chanInfo(rchanPtr(done), "ctx.Done", done)
 	s.event(evClose, &ci.obj, true)
 }
 
